@@ -581,6 +581,9 @@ func seqCase(c *Case, lean *LeanDriver) Verdict {
 				continue
 			}
 			mode := r.Intn(8)
+			if mode >= 5 {
+				mode = 3 // plain execution
+			}
 			if mode == 0 {
 				// a cancelled query in the middle of the sequence
 				cctx, ccancel := context.WithCancel(ctx)
@@ -598,12 +601,26 @@ func seqCase(c *Case, lean *LeanDriver) Verdict {
 			// allows it to reuse their memory once the query is closed
 			_, nerr := d.NewQuery(NewThanos(d, EngOpts{DisableFallback: true}), NewMemStorage(nil))
 			nativeQ := nerr == nil
-			if mode == 1 && nativeQ {
-				// a query that is cancelled in the middle of its execution
-				cctx, ccancel := context.WithCancel(ctx)
+			if (mode == 1 || mode == 2 || mode == 4) && nativeQ {
+				// a query that is cancelled, or whose storage fails, in the middle of its
+				// execution - late enough that batches have already been consumed
+				dry := NewMemStorage(cur)
+				d.Exec(ctx, NewThanos(d, EngOpts{}), dry)
+				total := dry.Events()
 				kk := int64(3 + r.Intn(400))
+				if mode != 1 && total > 8 {
+					kk = total/2 + r.Int63n(total/2)
+				}
+				cctx, ccancel := context.WithCancel(ctx)
+				what := "a query cancelled during execution"
+				if mode == 4 {
+					what = "a query whose storage failed during execution"
+				}
 				st.SetHook(func(kind string, n int64, info any) Action {
-					if n == kk {
+					if n >= kk {
+						if mode == 4 {
+							return Action{Err: fmt.Errorf("injected storage failure")}
+						}
 						ccancel()
 					}
 					return Action{}
@@ -612,7 +629,7 @@ func seqCase(c *Case, lean *LeanDriver) Verdict {
 				ccancel()
 				q.Close()
 				cancel()
-				if msg := recheck("a query cancelled during execution"); msg != "" {
+				if msg := recheck(what); msg != "" {
 					v.Other = msg
 					return v
 				}
